@@ -40,3 +40,26 @@ package domains
 //@   props C07 C11 C15
 //@   ensures result == domainOf(err)
 //@   loop 1: invariant domainOf(err) == domainOf(old(err))
+
+//@ func PackageDomainAtDepth
+//@   props C16
+//@   ensures $dom == lvl - 1 - depth
+//@ func PackageDomain
+//@   props C16
+//@   ensures $dom == lvl - 1
+//@ func New
+//@   props C16 C10
+//@   ensures result != nil
+//@   ensures[C16] $dom == lvl - 1
+//@ func Handled
+//@   props C16 C10 C07
+//@   ensures err == nil ==> result == nil
+//@   ensures[C16] $dom == lvl - 1
+//@ func HandledInDomain
+//@   props C10 C07
+//@   ensures err == nil ==> result == nil
+//@   ensures err != nil ==> typeis(result, *withDomain) && result.(*withDomain).domain == domain && typeis(result.(*withDomain).cause, *barriers.barrierErr)
+//@ func HandledInDomainWithMessage
+//@   props C10 C07
+//@   ensures err == nil ==> result == nil
+//@   ensures err != nil ==> typeis(result, *withDomain) && result.(*withDomain).domain == domain && typeis(result.(*withDomain).cause, *barriers.barrierErr)
